@@ -268,6 +268,24 @@ theorem edns_slot_noninterference (qs : List EdnsReq) (hq : ∀ q ∈ qs, q.hasO
         | false => rw [hq0 h] at hc; cases hc
       simp [ednsServe, EdnsSlot.enter, EdnsSlot.replyCookie, hc, ho]
 
+/-! ### the pooled sub-query writer -/
+
+/-- **A sub-query gets its own response or none.** For any sequence of internal
+sub-queries on one pooled `BufferWriter` — responses, silent handlers, and
+responses withheld as request-local failures, in any order — each caller
+receives exactly the message its own sub-pipeline wrote, and nothing when it
+wrote nothing or its response was withheld: the writer goes back to the pool
+empty on every path. -/
+theorem subquery_noninterference (qs : List (SubKind × Nat)) :
+    subMany {} qs = qs.map (fun q => if q.1 = .wrote then some q.2 else none) := by
+  induction qs with
+  | nil => rfl
+  | cons q t ih =>
+    obtain ⟨k, id⟩ := q
+    have h2 : (subQuery {} k id).2 = {} := rfl
+    simp only [subMany, List.map_cons, h2, ih]
+    cases k <;> simp [subQuery]
+
 /-! ### replies kept by the transport -/
 
 /-- **A reply handed to its transport is never touched again.** Whatever is
@@ -489,6 +507,9 @@ example : ednsMany {} [{ hasOpt := true, cookie := some 7 }, { hasOpt := true },
 -- carrier: a pin of the previous request is gone after reset
 example : (((({} : Carrier).tryPin 5 105).1.reset 1).pinned 5) = none ∧ ((({} : Carrier).tryPin 5 105).1.pinned 5) = some 105 := by
   decide
+
+-- sub-queries: a withheld response (id 8) is not handed to the silent sub-query that follows
+example : subMany {} [(.wrote, 7), (.localFail, 8), (.silent, 9), (.wrote, 10)] = [some 7, none, none, some 10] := by decide
 
 -- retained replies: the first reply (id 7) is still id 7 after two more requests were served
 example : retainMany [] [(7, true), (8, false), (9, true)] =
